@@ -343,12 +343,18 @@ Definition reencode : event -> bytes := reencode_with c02_reencode_orig_name.
 
 (* ================= C. trace checking ================= *)
 
-Definition sch_any : schema := mkSchema (fun _ => true) (fun _ => true) (fun _ _ => true) (fun _ => true) (fun _ => 0).
+(* appdef.ParseQName accepts a text with exactly one dot *)
+Definition name_one_dot (en : bytes) : bool := (length (filter (N.eqb 46) en) =? 1)%nat.
+(* loadEventBuildError fails on a name ParseQName rejects (c02_errname_parse_strict) or keeps it *)
+Definition name_ok (strict : bool) (en : bytes) : bool := if strict then name_one_dot en else true.
+Definition sch_strict : schema := mkSchema (fun _ => true) (fun _ => true) (fun _ _ => true) name_one_dot (fun _ => 0).
+Definition sch_any : schema :=
+  mkSchema (fun _ => true) (fun _ => true) (fun _ _ => true) (name_ok c02_errname_parse_strict) (fun _ => 0).
 (* the application's table QName id -> system-field mask of the type's kind (codec 0 rows) *)
 Fixpoint mask_lookup (t : list (N * N)) (q : N) : N :=
   match t with [] => 0 | (q', m) :: r => if q =? q' then m else mask_lookup r q end.
 Definition sch_masks (t : list (N * N)) : schema :=
-  mkSchema (fun _ => true) (fun _ => true) (fun _ _ => true) (fun _ => true) (mask_lookup t).
+  mkSchema (fun _ => true) (fun _ => true) (fun _ _ => true) (name_ok c02_errname_parse_strict) (mask_lookup t).
 
 Definition row_eqb (a b : row) : bool :=
   (r_qid a =? r_qid b) && (r_id a =? r_id b) && (r_parent a =? r_parent b) && (r_cont a =? r_cont b)
@@ -404,7 +410,8 @@ Definition accepted_prefixes (raw : bytes) : list N :=
 Inductive lop :=
 (* dig: digest of the accessor dump of the event PutPlog returned; dstored: digest of the dump of
    its stored form (differs only for an invalid event that carries argument objects / CUD rows or
-   an error text of 65535 bytes or more); res: 0 stored, 1 refused (sequence violation) *)
+   an error text of 65535 bytes or more; 0 = the stored row does not decode); res: 0 stored,
+   1 refused (sequence violation) *)
 | LPut (wlog : bool) (id off : N) (corrupted : bool) (dig dstored : N) (res : N)
 (* a new app-structs instance over the same storage: the PLog event cache starts empty *)
 | LRestart
@@ -432,6 +439,12 @@ Fixpoint pc_get (k : N * N) (pc : list (N * N * N)) : option N :=
   | (k', d) :: r => if pair_eqb k k' then Some d else pc_get k r
   end.
 
+Fixpoint until_undecodable (l : list (N * N)) : list (N * N) * bool :=
+  match l with
+  | [] => ([], false)
+  | (o, d) :: r => if d =? 0 then ([], true) else let '(p, f) := until_undecodable r in ((o, d) :: p, f)
+  end.
+
 Fixpoint agrees_log (cache_on : bool) (pc : list (N * N * N)) (st : lstore N) (ops : list lop) : bool :=
   match ops with
   | [] => true
@@ -446,7 +459,10 @@ Fixpoint agrees_log (cache_on : bool) (pc : list (N * N * N)) (st : lstore N) (o
       let model := if negb wlog && (count =? 1)%Z then
                      match pc_get (id, off) pc with Some d => [(off, d)] | None => from_storage end
                    else from_storage in
-      (err =? 0) && list_eqb pair_eqb model got && agrees_log cache_on pc st rest
+      (* dstored = 0 marks an entry whose stored row does not decode (original name of an error
+         event that ParseQName rejects): the read delivers what precedes it and fails *)
+      let '(deliv, failed) := until_undecodable model in
+      (err =? (if failed then 1 else 0)) && list_eqb pair_eqb deliv got && agrees_log cache_on pc st rest
   end.
 
 Definition agrees (t : trace) : bool :=
